@@ -35,8 +35,9 @@ type c17PV struct {
 
 type c17Poly struct {
 	Gen     string
-	Closed  bool `json:",omitempty"`
-	Reverse bool `json:",omitempty"`
+	Closed  bool  `json:",omitempty"`
+	Reverse bool  `json:",omitempty"`
+	Look    int64 `json:",omitempty"` // bit i: Vertices() is called after vertex i was added (mid-build look)
 	V       []c17PV
 }
 
